@@ -1230,7 +1230,7 @@ def shard(arg):
 def run(ctx):
     res = Result()
     nsh = 16
-    per = ctx.n(1500, 50000)
+    per = ctx.n(1500, 40000)
     for r in pmap('harness.props.c20', 'shard', [(ctx.seed, i, per) for i in range(nsh)]):
         res.merge(r)
     res.rule = ('chains: distinct (operation names, path strings, set of marks in the final marked stream, its length) with at '
